@@ -146,6 +146,19 @@ class WordRegions:
                     return VIOL({'kind': 'routing', 'word': w, 'centre': centre, 'min_n_cycles': m},
                                 'compute_features(threshold_kwargs min_n_cycles=%d) labels != reference' % m,
                                 expected=exp, observed=got, evals=nev)
+            # every threshold exactly on the ends of its documented range, routed through compute_features
+            if sum(map(ord, w)) % 4 == 0:
+                for f in FEATS:
+                    for v in (0, 1, 0.0, 1.0):
+                        thr_b = dict(base)
+                        thr_b[f + '_threshold'] = v
+                        dfb = compute_features(sig, 64, (6, 14), center_extrema=centre, threshold_kwargs=dict(thr_b))
+                        exp, _ = ref_labels_cycles(feat, thr_b, thr_b['min_n_cycles'])
+                        got = [bool(x) for x in dfb['is_burst'].to_numpy()]
+                        nev += 1
+                        if got != exp:
+                            return VIOL({'kind': 'routing', 'word': w, 'centre': centre, 'threshold': f, 'value': repr(v)},
+                                        'compute_features(%s_threshold=%r) labels != reference' % (f, v), expected=exp, observed=got, evals=nev)
             grids = {f: region_grid(feat[f]) for f in FEATS}
             feats_only = df0.drop(columns=['is_burst'])
             moving_sets = [c for k in range(1, self.max_moving + 1) for c in itertools.combinations(FEATS, k)]
